@@ -400,7 +400,7 @@ def xcmp_listing_records(d, tdir, sources):
     return recs
 
 
-def layout_pipeline(tier, d, rng, exe):
+def layout_pipeline(tier, d, rng, exe, passes=False):
     """generate -> assemble in process -> records.  Returns (cases, results, records, keep, notes)"""
     thorough = tier != "quick"
     cc = coupled_cases(True)
@@ -417,7 +417,7 @@ def layout_pipeline(tier, d, rng, exe):
     import corpus
     tdir = corpus.tools()
     cases += corpus_cases(d, tdir)
-    res = run_cases(exe, cases, d, "lay", flags="p")
+    res = run_cases(exe, cases, d, "lay", flags="p" if passes else "-")
     recs, keep, notes = [], [], []
     for c, r in zip(cases, res):
         if r['status'] != 'ok' or c.get('notlc'):
